@@ -47,11 +47,27 @@ def wellFormed (o : Obs) : Option String :=
 
 def dupIds (h : List Obs) : Bool := h.any fun a => h.any fun b => a.id = b.id && a.line ≠ b.line
 
+/-- `1,5,9` / `-` → sorted list of ids. -/
+def idList (s : String) : Option (List Nat) :=
+  if s = "-" then some [] else (s.splitOn ",").mapM String.toNat?
+
 def runSection (r : Report) (s : Section) : Report := Id.run do
   let mode := kvStr s.cfg "mode" "?"
   let mut r := r
   let mut hist : Array Obs := #[]
+  let mut inj : List (Nat × Nat) := []        -- (key, instance id) registered with Inject before the run
+  let mut closeLine : Option Line := none
   for l in s.lines do
+    if mode = "rm" && l.op.head? = some "inject" then
+      match (kv? l.op "key").bind String.toNat?, (kv? l.op "id").bind String.toNat?, l.obs with
+      | some k, some n, ["ok"] =>
+        if hist.isEmpty && (inj.lookup k).isNone then inj := inj ++ [(k, n)]; r := r.addCover "rm-inject"
+        else r := r.mismatch s.idx l.idx "inject-before-calls-once-per-key" (joinSp l.op)
+      | _, _, _ => r := r.mismatch s.idx l.idx "unparsable-line" (joinSp (l.op ++ ["=>"] ++ l.obs))
+      continue
+    if mode = "rm" && l.op = ["close"] then
+      closeLine := some l
+      continue
     match parseLine l with
     | none => r := r.mismatch s.idx l.idx "unparsable-line" (joinSp (l.op ++ ["=>"] ++ l.obs))
     | some o =>
@@ -65,18 +81,32 @@ def runSection (r : Report) (s : Section) : Report := Id.run do
   let viol :=
     if mode = "sf" then sfViolations h
     else if mode = "lc" then lcViolations h
-    else if mode = "rm" then rmViolations h
+    else if mode = "rm" then rmViolations inj h
     else [(0, s!"unknown mode {mode}")]
   if mode ≠ "sf" && mode ≠ "lc" && mode ≠ "rm" then r := r.mismatch s.idx 0 "mode" mode
   for (ln, msg) in viol do
     r := r.violation s.idx ln msg
   -- the history must be a visible trace of the Lean model
   if viol.isEmpty then
-    match Explain.explain mode h with
+    match Explain.explain mode inj h with
     | .ok (steps, tags) =>
       r := r.addCover s!"{mode}-explained" 1 |>.addCover s!"{mode}-model-steps" steps
       for t in tags do r := r.addCover t
     | .error (ln, model, impl) => r := r.mismatch s.idx ln model impl
+  -- `Close` after all calls returned: it closes exactly the instances the manager holds — the registered ones and
+  -- the (single) successfully created one of every other key — each once.  (Not in the property text: a MISMATCH.)
+  match closeLine with
+  | none => pure ()
+  | some l =>
+    if kvStr l.obs "err" "?" = "skipped" then r := r.addCover "rm-close-skipped(stuck)"
+    else
+      match (kv? l.obs "closed").bind idList, (kv? l.obs "multi").bind idList with
+      | some once, some multi =>
+        let want := (inj.map (·.2) ++ (h.filter fun c => c.ran && !c.serr && (inj.lookup c.key).isNone).map (·.id)).foldr insertSorted []
+        if once.foldr insertSorted [] ≠ want || multi ≠ [] || kvStr l.obs "err" "?" ≠ "-" then
+          r := r.mismatch s.idx l.idx s!"model: Close closes each held instance once: {want}" (joinSp l.obs)
+        else r := r.addCover "rm-close-all-held-instances-closed-once"
+      | _, _ => r := r.mismatch s.idx l.idx "unparsable-line" (joinSp (l.op ++ ["=>"] ++ l.obs))
   -- coverage counters
   r := r.addCover s!"{mode}-sections"
   if mode = "rm" && kvStr s.cfg "sfd" "-" ≠ "-" then r := r.addCover "rm-sections-delayed-flight-entry"
@@ -106,6 +136,7 @@ def runSection (r : Report) (s : Section) : Report := Id.run do
       if o.ran && !o.serr then r := r.addCover "rm-created"
       if o.ran && o.serr then r := r.addCover "rm-create-failed"
       if !o.ran && o.val.isSome then r := r.addCover "rm-got-existing"
+      if (inj.lookup o.key).isSome then r := r.addCover "rm-call-on-registered-key"
   return r
 
 def driver (secs : List Section) : Report := secs.foldl runSection {}
